@@ -35,20 +35,20 @@ func trunc(s string) string {
 // ---------- observations (the same text is produced by corr/C13.v obs_script) ----------
 
 type scriptObs struct {
-	text                      string
-	decOK, parseOK            bool
-	decPanic, parsePanic      bool
-	parts                     [][]byte
-	ops                       interpreter.ParsedScript
-	unparseOK                 bool
-	unparsed                  []byte
-	asm                       string
-	asmPanic                  bool
-	fromAsmOK                 bool
-	fromAsm                   []byte
-	hexOK, jsonOK             bool
-	hexBack, jsonBack         []byte
-	anyPanic                  string
+	text                 string
+	decOK, parseOK       bool
+	decPanic, parsePanic bool
+	parts                [][]byte
+	ops                  interpreter.ParsedScript
+	unparseOK            bool
+	unparsed             []byte
+	asm                  string
+	asmPanic             bool
+	fromAsmOK            bool
+	fromAsm              []byte
+	hexOK, jsonOK        bool
+	hexBack, jsonBack    []byte
+	anyPanic             string
 }
 
 func hexList(pp [][]byte) string {
@@ -102,7 +102,50 @@ func checkStream() {
 			return
 		}
 	}
+	// the same stream decoded into ONE destination that is used again for every element (as a loop with a single variable, or a
+	// struct with a script field that is filled again and again, does): each value is what its own rendering says, whatever the
+	// destination held before (the empty script after a long one included)
+	buf.Reset()
+	var docs bytes.Buffer
+	for i, s := range streamScripts {
+		if i%5 == 1 {
+			buf.WriteString("\"\"\n")
+			docs.WriteString("{\"script\":\"\"}\n")
+		}
+		jb, _ := json.Marshal(bscript.NewFromBytes(s))
+		buf.Write(jb)
+		buf.WriteByte('\n')
+		docs.WriteString("{\"script\":")
+		docs.Write(jb)
+		docs.WriteString("}\n")
+	}
+	dec = json.NewDecoder(&buf)
+	ddec := json.NewDecoder(&docs)
+	var one bscript.Script
+	var doc struct {
+		Script bscript.Script `json:"script"`
+	}
+	n := 0
+	for i, s := range streamScripts {
+		wants := [][]byte{s}
+		if i%5 == 1 {
+			wants = [][]byte{{}, s}
+		}
+		for _, want := range wants {
+			e1, e2 := dec.Decode(&one), ddec.Decode(&doc)
+			if e1 != nil || e2 != nil {
+				c.Violate("Script.UnmarshalJSON/stream", fmt.Sprint(e1, e2), n)
+				return
+			}
+			if !bytes.Equal(one, want) || !bytes.Equal(doc.Script, want) {
+				c.Violate("Script.UnmarshalJSON/reused-destination", fmt.Sprintf("element %d of a stream decoded into one variable reads %s (in a struct field: %s), expected %s", n, trunc(common.Hex(one)), trunc(common.Hex(doc.Script)), trunc(common.Hex(want))), common.Hex(want))
+				return
+			}
+			n++
+		}
+	}
 	c.Stats.Extra["json_stream_scripts"] = len(got)
+	c.Stats.Extra["json_stream_reused_destination"] = n
 }
 
 func observe(s []byte) *scriptObs {
@@ -124,6 +167,16 @@ func observe(s []byte) *scriptObs {
 		o.decOK = derr == nil
 		sb.WriteString("D" + map[bool]string{true: "+", false: "-"}[o.decOK] + hexList(o.parts))
 	}
+	// the owner of a decoding result may edit it: a second result (of a private copy of the script) is overwritten here; what
+	// later calls return must not depend on it (items handed out from a shared table would)
+	common.Safely(func() {
+		p2, _ := bscript.DecodeParts(append([]byte{}, s...))
+		for _, it := range p2 {
+			for i := range it {
+				it[i] ^= 0xff
+			}
+		}
+	})
 	// P: Parse
 	var perr error
 	parser := interpreter.DefaultOpcodeParser{}
